@@ -43,6 +43,9 @@ def gen_frame(rng):
   geos = [(f'c{i}', labels[0]) for i in range(n_c)] + [(f't{i}', labels[1]) for i in range(n_t)] + [(f'u{i}', labels[2]) for i in range(n_un)]
   noisy_geo = rng.choice([g for g, _ in geos[:n_c + n_t]]) if noisy_planted else None
   tie = rng.random() < 0.3      # two geos of a group reporting identical numbers (counts, rounded values)
+  long_feed = rng.random() < 0.4
+  # some dates between pre-test and test carry the 'unassigned' period label (an excluded week)
+  gap_days = set(range(n_pre - 2, n_pre)) if rng.random() < 0.25 else set()
   for gi, (g, grp) in enumerate(geos):
     w = rng.randint(1, 6)
     if tie and g in ('c1', 't1'):
@@ -54,7 +57,10 @@ def gen_frame(rng):
         v = w * base[d] + (0 if (tie and g in ('c0', 'c1', 't0', 't1')) else rng.randint(-6, 6))
       if out_day is not None and d == out_day and g == 't0':
         v += out_size
-      rows.append([g, d, grp, 0 if d < n_pre else 1, int(v)])
+      rows.append([g, d, grp, (-1 if d in gap_days else (0 if d < n_pre else 1)), int(v)])
+    if grp == labels[2] and long_feed:
+      for d in range(T, T + 5):      # the unassigned geo's feed runs on after the experiment
+        rows.append([g, d, grp, 1, int(w * base[-1] + rng.randint(-6, 6))])
     w_prev = w
   rng.shuffle(rows)
   return {'rows': rows, 'dup_index': rng.choice([None, None, 7, 50]), 'labels': list(labels), 'names': names, 'n_pre': n_pre, 'noisy_planted': noisy_geo, 'outlier_planted': out_day}
